@@ -26,7 +26,7 @@ ANCHORS = [
     "stereomolgraph.graphs.scrg:StereoCondensedReactionGraph.relabel_atoms",
 ]
 REQUIRED_ANCHORS = ANCHORS
-REQUIRED = ["relabels", "kind:partial", "kind:total", "kind:cycle", "kind:identity", "kind:empty", "kind:foreign", "with_isolated", "with_changes", "mode:copy", "mode:inplace", "followup_ops", "inverse_checked", "scale_cases"]
+REQUIRED = ["relabels", "kind:partial", "kind:total", "kind:cycle", "kind:identity", "kind:empty", "kind:foreign", "with_isolated", "with_changes", "mode:copy", "mode:inplace", "followup_ops", "inverse_checked", "scale_cases", "stale_ligand_only_mappings"]
 KINDS = ("total", "partial", "cycle", "identity", "empty", "partial", "total", "swap", "foreign")
 
 
@@ -76,6 +76,23 @@ def gen_cases(ctx):
         kind = KINDS[(i // 4) % len(KINDS)]
         m = make_mapping(rng, pg["atoms"], kind)
         yield {"cls": cls, "pg": pg_to_json(pg), "kind": kind, "mapping": [[a, b] for a, b in m.items()], "copy": (i // 32) % 2 == 0, "queried_first": rng.random() < 0.4, "bseed": rng.randrange(1 << 30)}
+    # a descriptor that outlived a bond (remove_bond keeps descriptors): the partial mapping renames ONLY the former
+    # ligand - neither the centre nor any of its remaining neighbours (seeded C11h: "untouched centre" fast path)
+    for i in range(ctx.n(1200, 12000)):
+        cls = ("StereoMolGraph", "StereoCondensedReactionGraph")[i % 2]
+        pg = gen.random_pg(rng, cls, n_range=(4, 10), alphabet=rng.choice([gen.TINY, gen.SMALL]), attrs=i % 3 == 0, p_stereo=0.9, p_none=rng.choice([0, 0.2]), p_change=0.3)
+        cands = [(c, l) for c, d in sorted(pg["astereo"].items(), key=repr) for l in d[1][1:] if l is not None and frozenset((c, l)) in pg["bonds"] and frozenset((c, l)) not in pg["bstereo"] and frozenset((c, l)) not in pg["bchange"]]
+        if not cands:
+            continue
+        c, l = rng.choice(cands)
+        del pg["bonds"][frozenset((c, l))]
+        new = next(x for x in (l + 1000, 424243, -l - 77, 10**12 + 3) if x not in pg["atoms"])
+        m = {l: new}
+        if i % 4 == 3:  # plus a renamed atom far from the centre
+            far = [a for a in sorted(pg["atoms"], key=repr) if a not in (c, l) and frozenset((a, c)) not in pg["bonds"]]
+            if far:
+                m[far[0]] = next(x for x in (far[0] + 2000, 424299, 10**12 + 9) if x not in pg["atoms"] and x != new)
+        yield {"cls": cls, "pg": pg_to_json(pg), "kind": "partial", "mapping": [[a, b] for a, b in m.items()], "copy": (i // 2) % 2 == 0, "queried_first": False, "bseed": rng.randrange(1 << 30), "family": "stale-ligand-only"}
     for k, nsz, cls, seed in gen.scale_specs(ctx, rng):
         yield {"cls": cls, "scale": nsz, "gseed": seed, "kind": ("total", "partial", "cycle", "swap", "partial")[k % 5], "copy": k % 2 == 0, "queried_first": False, "bseed": seed // 3}
 
@@ -101,6 +118,8 @@ def check_case(ctx, case):
         ctx.case()
         return
     ctx.count(f"via:{via}")
+    if case.get("family") == "stale-ligand-only":
+        ctx.count("stale_ligand_only_mappings")
     uni = tuple(sorted(pg["atoms"], key=repr))[:4] + (424242,)
     if case["queried_first"]:
         for _, thunk in model.queries(g, uni):
